@@ -74,3 +74,10 @@ def extract(repo):
     if missing and not problems:
         problems.append(f"rs2lean: functions {missing} were not translated from {SRC_REL}")
     return params, problems
+
+
+def extra(ctx):
+    """Plain-words verdict on the second tie when the src_* proofs did not build (the generic check only names the file)."""
+    import rs2lean
+    ok = all(f in ctx["params"].get("translated_functions", []) for f in SRC_FNS)
+    return rs2lean.tie_findings(["RlibModel/Generated/GcdSrc.lean"], "RlibModel/Lemmas/GcdSrc.lean", ok, SRC_REL)
